@@ -4,6 +4,7 @@ import (
 	"bytes"
 	"errors"
 	"fmt"
+	"time"
 
 	"github.com/talostrading/sonic"
 	"github.com/talostrading/sonic/codec/websocket"
@@ -368,9 +369,10 @@ func init() {
 			"declared lengths in (70000, default max] are exercised only in 1 of 8 default-max cases to keep allocations small",
 			"Encode->Decode identity is checked for frames built with SetPayload (payload-less pooled frames belong to C16)",
 		},
-		Builds:   func(string) []string { return []string{"checkptr"} },
-		NumCases: func(tier, build string) int { return vf.Tiered(tier, 20000, 8000000) },
-		Floor:    func(tier string) int { return vf.Tiered(tier, 1000, 20000) },
-		Run:      runC07,
+		Builds:      func(string) []string { return []string{"checkptr"} },
+		NumCases:    func(tier, build string) int { return vf.Tiered(tier, 20000, 8000000) },
+		Floor:       func(tier string) int { return vf.Tiered(tier, 1000, 20000) },
+		CaseTimeout: 30 * time.Second,
+		Run:         runC07,
 	})
 }
